@@ -96,6 +96,8 @@ type Node struct {
 	Disk *simdisk.Disk
 	Gens int
 	Inc  *Inc
+	// FastSync: the node starts in block-sync mode (C13)
+	FastSync bool
 }
 
 // Inc is one process lifetime.
@@ -188,7 +190,7 @@ func (nd *Node) conf(env *Env) *viper.Viper {
 	c.Set("pex_reactor", false)
 	c.Set("auth_by_ca", env.AuthByCA)
 	c.Set("non_validator_node_auth", false)
-	c.Set("fast_sync", false)
+	c.Set("fast_sync", nd.FastSync)
 	c.Set("moniker", fmt.Sprintf("n%d", nd.ID))
 	c.Set("p2p_laddr", "tcp://127.0.0.1:1")
 	c.Set("threshold_blocks", 0)
